@@ -36,7 +36,7 @@ ASSUMPTIONS = [
 
 CWDS = ["cwd", "cwd/deeper/still", ".", "in", "work dir"]
 OUTS = ["out", "build/gen/out", "cwd/out", "o u t", "out-é", "in/generated"]
-SPELLINGS = ["abs", "rel", "rel_dot", "abs_slash", "rel_slash", "dotdot"]
+SPELLINGS = ["abs", "rel", "rel_dot", "abs_slash", "rel_slash", "dotdot", "symlink_dotdot", "symlink_dotdot_rel"]
 
 
 def n_cases(tier: str) -> int:
@@ -271,8 +271,9 @@ def run_case(case: dict, ctx: dict) -> dict:
             plan["std"] = r.choice(["c++14", "c++17", "c++17-pmr", "c++20"])
         if lang in ("c", "cpp") and r.chance(1, 5):
             plan["no_strop"] = True  # enable_stropping: false through a --configuration file
-        if lang != "html" and r.chance(1, 5):
-            plan["templates"] = "paths"  # user templates that print type_to_include_path
+        if lang != "html" and r.chance(1, 4):
+            # user templates that print type_to_include_path / an incomplete set (generation must then fail, never skip types)
+            plan["templates"] = r.choice(["paths", "paths", "struct_only"])
     lang = plan["lang"]
     world = nnvg.World(sandbox, out_rel=plan["out_rel"], cwd_rel=plan["cwd_rel"])
     dsdlgen.materialize_files(files, roots, world.in_dir)
@@ -309,6 +310,7 @@ def run_case(case: dict, ctx: dict) -> dict:
 
     all_refs = {}  # type: typing.Dict[str, str]
     ev_digests = []  # type: typing.List[str]
+    world.spell(out, plan["outdir_spelling"])  # (creates the symbolic link some spellings go through, before any snapshot)
     created_by_root = {}  # type: typing.Dict[str, typing.Set[str]]
     deps_record = {}
     out_real_rel = os.path.relpath(os.path.realpath(out) if os.path.exists(out) else out, world.sandbox)
